@@ -243,7 +243,8 @@ class AddMonitor(Monitor):
             )
             return
         # every prefix / URI prefix of the new record resolves to that single record
-        bad = [p for p in spec.all_p(new) if after_idx["synonym_to_prefix"].get(p) != target.prefix
+        s2p = after_idx.get("synonym_to_prefix")
+        bad = [p for p in spec.all_p(new) if (s2p is not None and s2p.get(p) != target.prefix)
                or after_idx["prefix_map"].get(p) != target.uri_prefix]
         bad += [u for u in spec.all_u(new) if after_idx["reverse_prefix_map"].get(u) != target.prefix
                 or after_idx["trie"].get(u) != target.prefix]
